@@ -8,6 +8,7 @@ import (
 	"sync/atomic"
 	"time"
 
+	"verifharness/internal/rng"
 	"verifharness/internal/sup"
 
 	sgbucket "github.com/couchbase/sg-bucket"
@@ -95,4 +96,127 @@ func expiringInQueriesScenario(c *sup.Ctx) {
 	c.Count("queries_after_the_document_expired", int64(absent))
 	c.Cell(fmt.Sprintf("expiring-in-queries|%s", ifStr(disk, "disk", "mem")))
 	c.Sample(map[string]any{"disk": disk, "queries_while_readable": demanded, "queries_after_expiry": absent})
+}
+
+// bodylessRowsScenario (C19, model-free): rows without a body that are not flagged as tombstones - what the raw entry
+// points leave when they are handed a nil body - are "documents that currently have no body": the key-value API
+// reports them missing, so a query over $_keyspace must not return them. Only the statement's own equation is
+// judged: the ids a query returns are exactly the keys that Exists / GetRaw report.
+func bodylessRowsScenario(c *sup.Ctx) {
+	r := rng.New(c.Seed, rng.HashString("C19bodyless"), uint64(c.Local))
+	disk := c.Local%2 == 1
+	name := fmt.Sprintf("qb%d_%d", os.Getpid(), c19ExpSerial.Add(1))
+	url, dir := rosmar.InMemoryURL, ""
+	if disk {
+		dir = filepath.Join(c.Tmp, name)
+		url = "rosmar://" + dir
+	}
+	ctx := context.Background()
+	b, err := rosmar.OpenBucket(url, name, rosmar.CreateNew)
+	if err != nil {
+		c.Incon("open: " + err.Error())
+		return
+	}
+	defer func() {
+		func() { defer func() { _ = recover() }(); _ = b.CloseAndDelete(ctx) }()
+		if dir != "" {
+			_ = os.RemoveAll(dir)
+		}
+	}()
+	col := b.DefaultDataStore().(*rosmar.Collection)
+	if c.Local/2%2 == 1 {
+		ds, derr := b.NamedDataStore(sgbucket.DataStoreNameImpl{Scope: "s1", Collection: "c1"})
+		if derr != nil {
+			c.Incon("named collection: " + derr.Error())
+			return
+		}
+		col = ds.(*rosmar.Collection)
+	}
+	keys := []string{"a", "b", "c", "d", "e", "f"}
+	var history []string
+	nilWrites := 0
+	for step := 0; step < 30; step++ {
+		k := keys[r.Intn(len(keys))]
+		body := []byte(fmt.Sprintf(`{"n":%d}`, step))
+		kind := ""
+		func() {
+			defer func() {
+				if p := recover(); p != nil {
+					kind += fmt.Sprintf(" (panic: %v)", p)
+				}
+			}()
+			switch r.Intn(9) {
+			case 0, 1:
+				kind = "SetRaw"
+				err = col.SetRaw(k, 0, nil, body)
+			case 2:
+				kind = "SetRaw(nil)"
+				nilWrites++
+				err = col.SetRaw(k, 0, nil, nil)
+			case 3:
+				kind = "AddRaw(nil)"
+				nilWrites++
+				_, err = col.AddRaw(k, 0, nil)
+			case 4:
+				kind = "Delete"
+				err = col.Delete(k)
+			case 5:
+				kind = "WriteWithXattrs"
+				_, cas, _ := col.GetRaw(k)
+				_, err = col.WriteWithXattrs(ctx, k, 0, uint64(cas), body, map[string][]byte{"_sync": []byte(`{"s":1}`)}, nil, nil)
+			case 6:
+				kind = "Update(nil body)"
+				nilWrites++
+				_, err = col.Update(k, 0, func(cur []byte) ([]byte, *uint32, bool, error) { return nil, nil, false, nil })
+			case 7:
+				kind = "WriteCas(nil, raw)"
+				nilWrites++
+				_, cas, _ := col.GetRaw(k)
+				_, err = col.WriteCas(k, 0, uint64(cas), []byte(nil), sgbucket.Raw)
+			default:
+				kind = "SetXattrs"
+				_, err = col.SetXattrs(ctx, k, map[string][]byte{"_x": []byte(fmt.Sprint(step))})
+			}
+		}()
+		history = append(history, fmt.Sprintf("%s %s err=%v", kind, k, err != nil))
+		if step%3 != 2 && step != 29 {
+			continue
+		}
+		want := map[string]bool{}
+		for _, kk := range keys {
+			ex, e1 := col.Exists(kk)
+			_, _, e2 := col.GetRaw(kk)
+			if e1 == nil && ex != (e2 == nil) {
+				return // the key-value observers disagree with each other: C05's matter, nothing to compare with
+			}
+			if ex {
+				want[kk] = true
+			}
+		}
+		it, qerr := col.Query(sgbucket.SQLiteLanguage, `SELECT json_quote(id) AS id FROM $_keyspace`, nil, sgbucket.RequestPlus, false)
+		if qerr != nil {
+			c.Incon("query: " + qerr.Error())
+			return
+		}
+		got := map[string]int{}
+		for {
+			var row map[string]any
+			if !it.Next(ctx, &row) {
+				break
+			}
+			if id, ok := row["id"].(string); ok {
+				got[id]++
+			}
+		}
+		_ = it.Close()
+		c.Count("bodyless_row_queries_compared", 1)
+		for _, kk := range keys {
+			if (got[kk] > 0) != want[kk] || got[kk] > 1 {
+				c.Viol([]string{"C19"}, "query|bodyless-row", fmt.Sprintf("key %q: the key-value API reports exists=%v, the query over $_keyspace returned %d row(s) for it", kk, want[kk], got[kk]), map[string]any{"disk": disk, "history": history})
+				return
+			}
+		}
+	}
+	c.Count("writes_with_a_nil_body", int64(nilWrites))
+	c.Cell(fmt.Sprintf("bodyless-rows|%s|%s", ifStr(disk, "disk", "mem"), ifStr(c.Local/2%2 == 1, "named", "default")))
 }
